@@ -57,9 +57,19 @@ VVersion(e) ==
      ELSE IF \E si \in DOMAIN e.obsall : ~ObsOK(S, si, e.obsall[si]) THEN W("VER_changed_share_state", S, adv)
      ELSE W("", S, adv)
 
+\* stopService + a new StorageServer on the same directory with another readonly_storage setting
+VReconfigure(e) ==
+  LET T == Reconfigure(S, e.readonly) IN
+  IF \E si \in DOMAIN e.obsall : ~ObsDataOK(T, si, e.obsall[si]) THEN W("CFG_restart_changed_shares", S, adv)
+  ELSE IF \E si \in DOMAIN e.obsall : ~ObsOK(T, si, e.obsall[si]) THEN W("CFG_restart_changed_leases", S, adv)
+  ELSE IF ~InProgressReportOK(T, e.inprog) THEN W("CFG_restart_kept_reservations", S, adv)
+  ELSE IF NormReports(e.reports) # adv THEN W("CFG_restart_changed_advisories", S, adv)
+  ELSE W("", T, adv)
+
 VerdictM(e) ==
   CASE e.ev = "Advise"  -> VAdvise(e)
     [] e.ev = "Version" -> VVersion(e)
+    [] e.ev = "Reconfigure" -> VReconfigure(e)
     [] e.ev = "Crash"   -> W("MORE_unexpected_exception_" \o e.exc, S, adv)
     [] OTHER            -> LET v == Verdict(e) IN W(v.c, v.s, adv)
 
